@@ -27,6 +27,7 @@ func main() {
 	nG := flag.Int("gaters", 24, "number of gater scripts")
 	nL := flag.Int("limiters", 12, "number of limiter scripts")
 	doHosts := flag.Bool("hosts", true, "run the loopback host scenarios")
+	nConc := flag.Int("conc", 0, "concurrency tier: number of gater and limiter records driven by several goroutines at once (use a -race build)")
 	doSync := flag.Bool("sync", true, "run the sync RPC handler scenarios (pkg/consensus/sync handlers on a loopback node)")
 	in := flag.String("in", "", "replay: JSONL of records previously produced; re-executes the same scripts/scenarios")
 	flag.Parse()
@@ -34,8 +35,8 @@ func main() {
 		fmt.Fprintln(os.Stderr, "c18: -out is required")
 		os.Exit(2)
 	}
-	time.AfterFunc(120*time.Second, func() {
-		fmt.Fprintln(os.Stderr, "c18: watchdog: 120 s exceeded, aborting")
+	time.AfterFunc(600*time.Second, func() {
+		fmt.Fprintln(os.Stderr, "c18: watchdog: 600 s exceeded, aborting")
 		os.Exit(3)
 	})
 	// the "silent" logger of the code under test still prints error-level lines (with stack traces) on stdout;
@@ -49,6 +50,7 @@ func main() {
 	var gs []gScript
 	var ls []lScript
 	var hs []string
+	ip6, ip6Probed := false, false
 	var ss []string
 	var ts []string
 
@@ -107,7 +109,9 @@ func main() {
 		}
 		if *doHosts {
 			hs = append(hs, hostScenarios...)
-			if ip6LoopbackWorks() {
+			ip6 = ip6LoopbackWorks()
+			ip6Probed = true
+			if ip6 {
 				hs = append(hs, "malformed_request_ip6", "blacklisted_ip6_long")
 				ts = append(ts, twoIPScenarios...)
 			}
@@ -119,7 +123,15 @@ func main() {
 
 	o := hx.NewOut(*out)
 	defer o.Close()
+	if ip6Probed {
+		// environment record: whether the IPv6 loopback scenarios (two hosts on ::1, one identity on 127.0.0.1 and ::1) could run
+		o.Put(map[string]interface{}{"k": "env", "ip6": ip6})
+	}
 
+	for i := 0; i < *nConc; i++ {
+		o.Put(runConcGater(r, i))
+		o.Put(runConcLimiter(r, i))
+	}
 	// phase 1: gater and limiter scripts, all concurrently (they mostly sleep)
 	gOut := make([]gRec, len(gs))
 	lOut := make([]lRec, len(ls))
